@@ -8,7 +8,7 @@ import glob, json, os, shutil
 
 ROOT = os.path.dirname(os.path.dirname(os.path.abspath(__file__)))
 rows = []
-for d in sorted(glob.glob("/tmp/seed_out/C??_?")) + sorted(glob.glob("/tmp/seed_out2/C??_?")) + sorted(glob.glob("/tmp/seed_out3/C??_?")) + sorted(glob.glob("/tmp/seed_out4/C??_?")) + sorted(glob.glob("/tmp/seed_out5/C??_?")) + sorted(glob.glob("/tmp/seed_out6/C??_?")) + sorted(glob.glob("/tmp/seed_out7/C??_?")) + sorted(glob.glob("/tmp/seed_out8/C??_?")):
+for d in sorted(glob.glob("/tmp/seed_out/C??_?")) + sorted(glob.glob("/tmp/seed_out2/C??_?")) + sorted(glob.glob("/tmp/seed_out3/C??_?")) + sorted(glob.glob("/tmp/seed_out4/C??_?")) + sorted(glob.glob("/tmp/seed_out5/C??_?")) + sorted(glob.glob("/tmp/seed_out6/C??_?")) + sorted(glob.glob("/tmp/seed_out7/C??_?")) + sorted(glob.glob("/tmp/seed_out8/C??_?")) + sorted(glob.glob("/tmp/seed_out9/C??_?")):
     rp = os.path.join(d, "result.json")
     if not os.path.exists(rp):
         continue
@@ -24,6 +24,8 @@ for d in sorted(glob.glob("/tmp/seed_out/C??_?")) + sorted(glob.glob("/tmp/seed_
         sid = sid[:3] + "_r7" + sid[3:]
     if "/seed_out8/" in d:
         sid = sid[:3] + "_r8" + sid[3:]
+    if "/seed_out9/" in d:
+        sid = sid[:3] + "_r9" + sid[3:]
     if "/seed_out4/" in d:
         sid = sid[:3] + "_r4" + sid[3:]
     if "/seed_out3/" in d:
